@@ -452,12 +452,21 @@ func (f *Frame) execAppend(instr ssa.Instruction, args []*V, st *State, rt types
 			cont = u.fresh("appended", inner)
 			iq := T{"i!q", SInt}
 			pat2 := ""
+			off := s.Sl.Off
 			if s.Sl.Off.S != "0" {
-				// a position of the old slice that is mentioned anywhere also names the copied element
-				pat2 = " :pattern (" + u.sidx(s.Sl.Off, iq).S + ")"
+				// a position of the old slice that is mentioned anywhere also names the copied element. The
+				// old backing array and offset are given names of their own: as plain terms they would occur
+				// under the binder only (the offset of a slice held in a struct field is a heap read), where
+				// E-matching does not see them, and the trigger would never fire.
+				oldrow := u.fresh("oldrow", inner)
+				u.assume(st, eq(oldrow, olds))
+				olds = oldrow
+				off = u.fresh("oldoff", SInt)
+				u.assume(st, eq(off, s.Sl.Off))
+				pat2 = " :pattern (" + sel(olds, u.sidx(off, iq)).S + ")"
 			}
 			u.assume(st, T{fmt.Sprintf("(forall ((i!q Int)) (! (=> (and (<= 0 i!q) (< i!q %s)) (= (select %s i!q) (select %s %s))) :pattern ((select %s i!q))%s))",
-				s.Sl.Len.S, cont.S, olds.S, u.sidx(s.Sl.Off, iq).S, cont.S, pat2), SBool})
+				s.Sl.Len.S, cont.S, olds.S, u.sidx(off, iq).S, cont.S, pat2), SBool})
 			u.assume(st, eq(sel(cont, s.Sl.Len), sel(oldt, t.Sl.Off)))
 		} else {
 			cont = u.fresh("appended", inner)
